@@ -274,6 +274,40 @@ def l3(rep, pa, probe, rng, count):
     return runs, metas, recs
 
 
+def covering_sparse_records(rep, pa, probe, rng, count):
+    """'Equals the best alignment whenever the window covers the whole continuum' where it is most fragile: 4-5 annotators of
+    whom only two have units (nested and long overlapping ones), and the SMALLEST covering window w = ceil(units / annotators) -
+    a window sized by anything else than the number of annotators no longer holds everything."""
+    from pyannote.core import Segment
+    d = pa.PositionalSporadicDissimilarity()
+    recs = []
+    for _ in range(count):
+        p = rng.choice([4, 5, 5])
+        c = pa.Continuum()
+        names = [f"a{i}" for i in range(p)]
+        for nm in names:
+            c.add_annotator(nm)
+        for i in rng.sample(range(p), 2):
+            for _ in range(rng.randint(3, 5)):
+                s0 = rng.randint(0, 8)
+                c.add(names[i], Segment(float(s0), float(s0 + rng.choice([1, 2, 3, 9, 14, 20]))), None)
+        w = math.ceil(c.num_units / p)
+        al, run = probe.run(c, d, w)
+        meta = {"dissim": "pos", "w": w, "continuum": align.continuum_summary(c), "delta_empty": 1.0, "family": "fast, sparse covering window"}
+        rep.case(key=("L3s", json.dumps(meta["continuum"]), w))
+        if al is None:
+            rep.violation("fast.stall", {"why": run["_why"], "meta": meta})
+            continue
+        best = c.get_best_alignment(d)
+        D, de_int = ar.observe_table(pa, c, d, align.R_SCALE)
+        rec = ar.make_record(pa, c, d, al, D, de_int, align.R_SCALE, "partition", 8, search=False, band=16, rng=rng,
+                             with_recompute=False, meta=meta)
+        rec["fastbest"] = ar.sc(best.disorder * (c.num_units / p), (p * (p - 1) // 2) * align.R_SCALE)
+        rec["covering"] = 1
+        recs.append(rec)
+    return recs
+
+
 def gamma_jobs(rep, pa, probe, rng, count):
     """Fast-mode gamma runs: every job logs (best_window_size of its continuum, algorithm used)."""
     runs = []
@@ -339,6 +373,7 @@ def run(tier, rep):
     try:
         runs2, metas2 = l2(rep, pa, probe, model_runs, rng, 500 if quick else 8000)
         runs3, metas3, recs = l3(rep, pa, probe, rng, 150 if quick else 3000)
+        recs += covering_sparse_records(rep, pa, probe, rng, 90 if quick else 900)
         runsg = gamma_jobs(rep, pa, probe, rng, 10 if quick else 80)
     finally:
         probe.uninstall()
